@@ -454,6 +454,10 @@ class BinnedTrees(Iterable[AngularTree]):
             new._patch = patch
             new.binning = binning
 
+            # invalidate existing trees first, otherwise an interrupted rebuild
+            # leaves new trees that are still labelled with the old binning
+            new.binning_file.unlink(missing_ok=True)
+
             with new.trees_file.open(mode="wb") as f:
                 trees = build_trees(patch, binning, leafsize=leafsize)
                 pickle.dump(trees, f)
@@ -465,10 +469,12 @@ class BinnedTrees(Iterable[AngularTree]):
                 edges = binning.edges
                 closed_left = binning.closed == Closed.left
 
-            with new.binning_file.open(mode="wb") as f:
+            temp_file = new.binning_file.with_suffix(".tmp")
+            with temp_file.open(mode="wb") as f:
                 byte = int(closed_left).to_bytes(1, byteorder="big")
                 f.write(byte)
                 edges.tofile(f)
+            temp_file.replace(new.binning_file)  # marks the trees as complete
 
         return new
 
